@@ -2,6 +2,7 @@ package verifharness
 
 import (
 	"fmt"
+	"net/http"
 	"runtime"
 	"sort"
 	"strings"
@@ -184,6 +185,25 @@ func worldRelease(w *World) {
 	if hbTimeout > 0 {
 		scfg["transport"].(map[string]any)["heartbeatTimeout"] = hbTimeout
 	}
+	// optionally every registration is put before a server plugin and so takes simulated time: a control connection
+	// that drops meanwhile leaves registrations in flight
+	regDelay := time.Duration(w.KnobPick("newproxy_plugin_ms", 0, 0, 30, 400)) * time.Millisecond
+	if regDelay > 0 {
+		restore := w.PlugN.Enter()
+		pln, perr := w.Net.Listen("tcp", "10.0.4.1:9800")
+		restore()
+		if perr != nil {
+			w.Fail("%v", perr)
+		}
+		w.PlugN.Go(func() {
+			(&http.Server{Handler: http.HandlerFunc(func(rw http.ResponseWriter, _ *http.Request) {
+				time.Sleep(regDelay)
+				rw.Header().Set("Content-Type", "application/json")
+				rw.Write([]byte(`{"reject":false,"unchange":true}`))
+			})}).Serve(pln)
+		})
+		scfg["httpPlugins"] = []map[string]any{{"name": "slow", "addr": "10.0.4.1:9800", "path": "/handler", "ops": []string{"NewProxy"}}}
+	}
 	env := w.newLcEnv(scfg, token, PeerOpts{Server: "10.0.0.1:7000", Mux: tcpMux, Token: token})
 	env.httpPort, env.httpsPort, env.muxPort = 8080, 8443, 7005
 	env.start()
@@ -222,8 +242,27 @@ func worldRelease(w *World) {
 
 	// bystander with its own proxy
 	by := env.newClient("by", 1)
+	keepAlive := func(c *lcClient, stop chan struct{}) {
+		// valid heartbeats so that only the intended silence trips the timeout
+		c.Node.Go(func() {
+			for {
+				select {
+				case <-stop:
+					return
+				case <-time.After(time.Second):
+					if c.IsClosed() {
+						return
+					}
+					c.Ping(true, token)
+				}
+			}
+		})
+	}
 	if rr, err := by.login(""); err != nil || mstr(rr, "error") != "" {
 		w.Fail("bystander login: %v %v", err, rr)
+	}
+	if hbTimeout > 0 {
+		keepAlive(by, make(chan struct{}))
 	}
 	if rr, got := by.register(M{"proxy_name": "by", "proxy_type": "tcp", "remote_port": 20009}); !got || mstr(rr, "error") != "" {
 		w.Fail("bystander register: %v", rr)
@@ -291,25 +330,11 @@ func worldRelease(w *World) {
 	}
 	// (a ping/pong pair is not a barrier here: the keep-alive pings of this world run in parallel, and the pong of
 	// an earlier one would end the wait before the messages in front of it have been processed)
-	syncCtl := func(c *lcClient) { c.syncStrong() }
-	keepAlive := func(c *lcClient, stop chan struct{}) {
-		// valid heartbeats so that only the intended silence trips the timeout
-		c.Node.Go(func() {
-			for {
-				select {
-				case <-stop:
-					return
-				case <-time.After(time.Second):
-					if c.IsClosed() {
-						return
-					}
-					c.Ping(true, token)
-				}
-			}
-		})
-	}
-	if hbTimeout > 0 {
-		keepAlive(by, make(chan struct{}))
+	syncCtl := func(c *lcClient) {
+		if !c.syncStrong() && !c.IsClosed() {
+			// (decides C16 rather than C10: the session is open and has stopped handling its messages)
+			w.Violate("C16", "stall", "session-message-handling-stalled", "session %s is open but a registration sent after its CloseProxy messages got no reply within 30 s (proxies %v)", c.Name, kinds(set))
+		}
 	}
 
 	cur := env.newClient("cy", r.Range(0, 3))
@@ -361,6 +386,23 @@ func worldRelease(w *World) {
 				return
 			}
 		case 1: // control connection dropped, new session shortly after
+			retry := 5 * time.Second
+			if r.Intn(3) == 0 {
+				// ... while the registrations of the whole set are in flight: the session gives its proxies up, asks
+				// for all of them again without waiting for the replies, and drops
+				for _, s := range set {
+					cur.CloseProxy(mstr(s.f, "proxy_name"))
+				}
+				syncCtl(cur)
+				for _, s := range set {
+					cur.Send(tNewProxy, s.f)
+				}
+				if d := r.Intn(4); d > 0 {
+					time.Sleep(time.Duration(d) * time.Millisecond)
+				}
+				w.Probe("release.drop_during_registration")
+				retry = 10*time.Second + time.Duration(len(set))*regDelay
+			}
 			if r.Intn(2) == 0 {
 				cur.Drop()
 			} else {
@@ -379,7 +421,7 @@ func worldRelease(w *World) {
 			if hbTimeout > 0 {
 				keepAlive(cur, stopKA)
 			}
-			if !regAll(cur, "after-drop", 5*time.Second) {
+			if !regAll(cur, "after-drop", retry) {
 				return
 			}
 		case 2: // re-login with the same run id: old session torn down before the acknowledgement
